@@ -363,6 +363,17 @@ def check_produce(makers):
     return None
 
 
+def dispatch_single(lx, d):
+    """a request sent on its own goes to the object its path addresses (as Connection_Manager.request does: lookup(*resolve(path))); a path that
+    does not resolve is handed to the Logix object, which answers it with its error status"""
+    from cpppo.server.enip import device
+    try:
+        target = device.lookup(*device.resolve(d.path))
+    except Exception:
+        target = None
+    (target or lx).request(d)
+
+
 def check_bundle_vs_singles(makers):
     import cpppo
     from . import sim
@@ -372,7 +383,7 @@ def check_bundle_vs_singles(makers):
     singles = []
     for mk in makers:
         d = mk()
-        lx.request(d)
+        dispatch_single(lx, d)
         singles.append(reply_view(d))
     state1 = dict((k, sim.tag_values(k)) for k in cfg)
     lx = sim.fresh(cfg, max_bytes=6)
